@@ -11,8 +11,11 @@ import time
 VERIF = os.path.dirname(os.path.dirname(os.path.abspath(__file__)))
 REPO = os.environ.get("VERIF_REPO", "/repo")
 CACHE = os.path.join(VERIF, ".cache")
-HOOK_TARGET = os.path.join(CACHE, "target-hooks")
-KSIM_TARGET = os.path.join(CACHE, "target-ksim")
+# reach measurement (tools/coverage.sh): VERIF_COVERAGE=<dir> builds shell and ksim with source-based coverage
+# instrumentation (nightly toolchain: its llvm-tools read the profiles) into separate target directories
+COVERAGE = os.environ.get("VERIF_COVERAGE") or None
+HOOK_TARGET = os.path.join(CACHE, "target-hooks-cov" if COVERAGE else "target-hooks")
+KSIM_TARGET = os.path.join(CACHE, "target-ksim-cov" if COVERAGE else "target-ksim")
 PUP_TARGET = os.path.join(CACHE, "target-pup")
 CICADA_BIN = os.path.join(HOOK_TARGET, "debug", "cicada")
 KSIM_BIN = os.path.join(KSIM_TARGET, "release", "ksim")
@@ -64,7 +67,9 @@ def _cargo_env(hooks):
     env = dict(os.environ)
     env["CARGO_NET_OFFLINE"] = "true"
     if hooks:
-        env["RUSTFLAGS"] = "--cfg cicada_verif"
+        env["RUSTFLAGS"] = "--cfg cicada_verif" + (" -C instrument-coverage" if COVERAGE else "")
+        if COVERAGE:
+            env["RUSTUP_TOOLCHAIN"] = "nightly"
     else:
         env.pop("RUSTFLAGS", None)
     return env
